@@ -8,8 +8,8 @@
      function bodies): every re-entry goes through the polled loop with the same counter;
    * every other loop of package interp is classified by what bounds it.  The loops that are
      not bounded by the size of a value already in memory are exactly: the dispatch loop (polled),
-     the record loop of execActions (one iteration per input record: polled only through the
-     opcodes of the rules, see the C15_records theorems), the input readers (one iteration per chunk of
+     the record loop of execActions (one iteration per input record: polled in its head with
+     the same counter, [record_loop_polls]), the input readers (one iteration per chunk of
      input / input file; blocking reads are outside the model) and the stack-growing loop.
    A change of the repository that adds a loop, a poll, a write of the counter or a call of
    execute changes the table and breaks one of these obligations. *)
@@ -25,6 +25,11 @@ Theorem dispatch_loop_head :
   dispatch_head = ["op := code[ip]"; "ip++";
                    "if p.checkCtx { err := p.checkContext() if err != nil { return err } }"].
 Proof. split; reflexivity. Qed.
+
+(* the record loop of execActions starts with the same counting poll, before the record is fetched *)
+Theorem record_loop_polls :
+  record_loop_head = ["if p.checkCtx { err := p.checkContext() if err != nil { return err } }"].
+Proof. reflexivity. Qed.
 
 Definition loop_eqb (a b : string * string * Z) : bool :=
   let '(f1, h1, c1) := a in let '(f2, h2, c2) := b in
@@ -56,8 +61,8 @@ Proof. reflexivity. Qed.
 
 Theorem polled_only_here :
   poll_sites = [("interp.executeAll", "checkContextNow"); ("interp.executeAll", "checkContextNow");
-                ("interp.executeAll", "checkContextNow"); ("interp.checkContext", "checkContextNow");
-                ("interp.execute", "checkContext")].
+                ("interp.executeAll", "checkContextNow"); ("interp.execActions", "checkContext");
+                ("interp.checkContext", "checkContextNow"); ("interp.execute", "checkContext")].
 Proof. reflexivity. Qed.
 
 Theorem execute_called_only_here :
@@ -82,7 +87,7 @@ Proof. reflexivity. Qed.
 
 Inductive bound : Type :=
 | Dispatch        (* the dispatch loop: polls the context on every iteration *)
-| Records         (* execActions: one iteration per input record *)
+| Records         (* execActions: one iteration per input record; polls the context on every iteration *)
 | Reenters        (* range over a value in memory whose body calls execute: every iteration with opcodes is polled *)
 | Range           (* range over a slice, map or string already in memory *)
 | Counted         (* i := a; i < b; i++ / i += 2 with b fixed *)
